@@ -14,7 +14,7 @@ ENC = ["cincoconfig.fields.secure_field.SecureField.to_basic", "cincoconfig.fiel
 ROOTK, CTK, SUBK = "/k/root.key", "/k/ct.key", "/k/sub.key"
 DEFAULTK = Config.DEFAULT_CINCOKEY_FILEPATH
 KEYS = {ROOTK: bytes([11]) * 32, CTK: bytes([22]) * 32, SUBK: bytes([33]) * 32, DEFAULTK: bytes([44]) * 32}
-PLAIN = {"pw": "r-secret", "sub.pw": "s-secret", "sub.deep.pw": "d-sécret", "ct.pw": "c-secret",
+PLAIN = {"seclist.0": "l0-secret", "seclist.1": "l1-secret", "pw": "r-secret", "sub.pw": "s-secret", "sub.deep.pw": "d-sécret", "ct.pw": "c-secret",
          "items.0": "i0-secret", "items.1": "i1-secret", "titems.0": "t0-secret"}
 METHODS = ("xor", "aes", "best")
 
@@ -33,23 +33,27 @@ def _schema(method: str, ct_named: bool):
     schema.ct = T
     schema.items = ListField(item, default=lambda: [])
     schema.titems = ListField(T, default=lambda: [])
+    schema.seclist = ListField(SecureField(method=method), default=lambda: [])
+    schema.sub.seclist2 = ListField(SecureField(method=method), default=lambda: [])
     return schema, item, T
 
 
 def _plain_tree():
-    return {"pw": PLAIN["pw"], "sub": {"pw": PLAIN["sub.pw"], "deep": {"pw": PLAIN["sub.deep.pw"]}},
+    return {"pw": PLAIN["pw"], "seclist": [PLAIN["seclist.0"]],
+            "sub": {"pw": PLAIN["sub.pw"], "deep": {"pw": PLAIN["sub.deep.pw"]}, "seclist2": [PLAIN["seclist.1"]]},
             "ct": {"pw": PLAIN["ct.pw"]},
             "items": [{"pw": PLAIN["items.0"]}, {"pw": PLAIN["items.1"]}],
             "titems": [{"pw": PLAIN["titems.0"]}]}
 
 
 def _read(cfg: Config):
-    return {"pw": cfg.pw, "sub.pw": cfg.sub.pw, "sub.deep.pw": cfg.sub.deep.pw, "ct.pw": cfg.ct.pw,
+    return {"seclist.0": cfg.seclist[0], "seclist.1": cfg.sub.seclist2[0], "pw": cfg.pw, "sub.pw": cfg.sub.pw, "sub.deep.pw": cfg.sub.deep.pw, "ct.pw": cfg.ct.pw,
             "items.0": cfg.items[0].pw, "items.1": cfg.items[1].pw, "titems.0": cfg.titems[0].pw}
 
 
 def _leaves(tree: dict):
-    return {"pw": tree["pw"], "sub.pw": tree["sub"]["pw"], "sub.deep.pw": tree["sub"]["deep"]["pw"],
+    return {"seclist.0": tree["seclist"][0], "seclist.1": tree["sub"]["seclist2"][0],
+            "pw": tree["pw"], "sub.pw": tree["sub"]["pw"], "sub.deep.pw": tree["sub"]["deep"]["pw"],
             "ct.pw": tree["ct"]["pw"], "items.0": tree["items"][0]["pw"], "items.1": tree["items"][1]["pw"],
             "titems.0": tree["titems"][0]["pw"]}
 
@@ -67,12 +71,15 @@ def _decrypt(leaf: dict, key: bytes) -> Optional[str]:
 def _populate(cfg: Config, item, T, build_route: int, item_route: int):
     if build_route == 0:  # attribute assignment on the default sub-configurations
         cfg.pw = PLAIN["pw"]
+        cfg.seclist = [PLAIN["seclist.0"]]
+        cfg.sub.seclist2.append(PLAIN["seclist.1"])
         cfg.sub.pw = PLAIN["sub.pw"]
         cfg.sub.deep.pw = PLAIN["sub.deep.pw"]
         cfg.ct.pw = PLAIN["ct.pw"]
     elif build_route == 1:  # maps assigned to sub-configurations / config type
         cfg.pw = PLAIN["pw"]
-        cfg.sub = {"pw": PLAIN["sub.pw"], "deep": {"pw": PLAIN["sub.deep.pw"]}}
+        cfg.seclist = [PLAIN["seclist.0"]]
+        cfg.sub = {"pw": PLAIN["sub.pw"], "deep": {"pw": PLAIN["sub.deep.pw"]}, "seclist2": [PLAIN["seclist.1"]]}
         cfg.ct = {"pw": PLAIN["ct.pw"]}
     else:  # everything through load_tree (plaintext leaves are taken as given)
         cfg.load_tree({k: v for k, v in _plain_tree().items() if k not in ("items", "titems")})
@@ -164,16 +171,42 @@ for _m in METHODS:
         _mk(_m, _b)
 
 
+def _rekey_same(used_before: bool, mi: int) -> bool:
+    """the sub-configuration is given the key file it currently inherits; afterwards the root gets another one:
+    the sub-configuration names a key file, so it (and what is below it) must stay on that file"""
+    method = "xor" if mi == 0 else "aes"
+    fs = FakeFS(files=dict(KEYS), dirs=["/k", DEFAULTK.rsplit("/", 1)[0] or "/"])
+    with fs.patched():
+        schema = Schema()
+        schema.pw = SecureField(method=method)
+        schema.sub.pw = SecureField(method=method)
+        schema.sub.deep.pw = SecureField(method=method)
+        cfg = schema(key_filename=ROOTK)
+        cfg.pw, cfg.sub.pw, cfg.sub.deep.pw = "r-secret", "s-secret", "d-secret"
+        if used_before:
+            cfg.to_tree()
+        cfg.sub._key_filename = ROOTK      # the file it inherits right now
+        cfg._key_filename = CTK            # the root moves to another file
+        tree = cfg.to_tree()
+        for leaf, keypath, text in ((tree["pw"], CTK, "r-secret"), (tree["sub"]["pw"], ROOTK, "s-secret"),
+                                    (tree["sub"]["deep"]["pw"], ROOTK, "d-secret")):
+            hold("rekey", _decrypt(leaf, KEYS[keypath]) == text,
+                 lambda: "secret %r is not encrypted under %s" % (text, keypath))
+    return True
+
+
 @obligation(prop="C03", sites=("rekey",), stubs=("FakeFS",),
             encodes=["cincoconfig.fields.secure_field.SecureField.to_basic", "cincoconfig.core.Config._keyfile"], budget={"quick": 120, "thorough": 300},
             what="key-file assignment to the root or to a sub-configuration, before or after a first "
                  "serialisation: afterwards every secret is encrypted under the nearest ancestor that names a key "
                  "file at that moment")
-def rekey_after_use(used_before: bool, assign_root: bool, assign_sub: bool, mi: int) -> bool:
+def rekey_after_use(used_before: bool, assign_root: bool, assign_sub: bool, mi: int, sub_same_then_root: bool) -> bool:
     """
     pre: 0 <= mi <= 1
     post: _
     """
+    if sub_same_then_root:
+        return _rekey_same(used_before, mi)
     method = "xor" if mi == 0 else "aes"
     fs = FakeFS(files=dict(KEYS), dirs=["/k", DEFAULTK.rsplit("/", 1)[0] or "/"])
     with fs.patched():
